@@ -56,6 +56,9 @@ func main() {
 	w := bufio.NewWriterSize(os.Stdout, 1<<20)
 	defer w.Flush()
 	switch os.Args[1] {
+	case "child":
+		childMain(os.Args[2:])
+		return
 	case "gen", "both":
 		if len(os.Args) < 6 {
 			fmt.Fprintln(os.Stderr, "usage: harness gen <domain> <op> <n> <seed>")
